@@ -19,7 +19,7 @@ use serde_json::{json, Value};
 use crate::{
     alloc::measure,
     driver::{Prop, RunReport, Tier},
-    gen::GenStats,
+    gen::{self, GenStats},
     model::guarded,
     oracle::v,
     rng::{Fnv, Rng},
@@ -364,6 +364,10 @@ fn gen_pth(rng: &mut Rng) -> Image {
     } else {
         size_class(rng, 400)
     };
+    gen_pth_n(rng, n)
+}
+
+fn gen_pth_n(rng: &mut Rng, n: usize) -> Image {
     let mut b = b"LFSPTH".to_vec();
     b.push(rng.byte());
     b.push(rng.byte());
@@ -687,7 +691,22 @@ impl Prop for C17 {
                 // byzantine file
                 let mut b = img.bytes;
                 let mut notes = Vec::new();
-                match rng.below(6) {
+                match rng.below(7) {
+                    6 if kind == Kind::Smx && b.len() >= 48 => {
+                        // the 32-byte track name is text: escapes, code page markers, multi-byte
+                        // sequences, cut off by the end of the field or not terminated at all
+                        let mut name = Vec::new();
+                        for _ in 0..rng.usize(0, 3) {
+                            name.push(*rng.pick(b"a1 ^\x01\xE9"));
+                        }
+                        while name.len() < 32 && !rng.chance(1, 6) {
+                            let a: &[u8] = *rng.pick(&gen::TEXT_ATOMS[..]);
+                            name.extend_from_slice(a);
+                        }
+                        name.resize(32, if rng.chance(1, 4) { b'x' } else { 0 });
+                        b[16..48].copy_from_slice(&name[..32]);
+                        notes.push(format!("track name := {}", hex::enc(&name[..32])));
+                    },
                     0 => {
                         let n = rng.usize(0, 300);
                         b = rng.bytes(n);
@@ -748,8 +767,26 @@ impl Prop for C17 {
                 let mut note = String::new();
                 let image = match rng.below(4) {
                     0 => {
-                        let cut = rng.usize(0, len.saturating_sub(1));
+                        // loaders that read block-wise meet the end of a cut file at a block
+                        // boundary: cut at multiples of the usual block sizes as well as anywhere
+                        let img = if kind == Kind::Pth && rng.chance(1, 2) {
+                            let n = rng.usize(205, 1700);
+                            gen_pth_n(rng, n)
+                        } else {
+                            img
+                        };
+                        let len = img.bytes.len();
+                        let cut = if len > 600 && rng.chance(2, 3) {
+                            let blk = *rng.pick(&[512usize, 4096, 8192, 8192, 16_384, 65_536]);
+                            let blk = if blk >= len { 512 } else { blk };
+                            blk * rng.usize(1, (len - 1) / blk)
+                        } else {
+                            rng.usize(0, len.saturating_sub(1))
+                        };
                         note = format!("truncated to {}", cut);
+                        if cut % 512 == 0 && cut > 0 {
+                            note.push_str(" (a block boundary)");
+                        }
                         img.bytes[..cut].to_vec()
                     },
                     1 => {
